@@ -1004,7 +1004,7 @@ def _calendar_gates(run: Run, cm) -> None:
                 if not kind or not c.args:  # type: ignore[attr-defined]
                     continue
                 arg = c.args[0]  # type: ignore[attr-defined]
-                if isinstance(arg, ast.Call) and isinstance(arg.func, ast.Attribute) and arg.func.attr == "replace" and [ast.unparse(x) for x in arg.args] == ["'Z'", "'+00:00'"] and not shape_needed:
+                if isinstance(arg, ast.Call) and isinstance(arg.func, ast.Attribute) and arg.func.attr == "replace" and [run.project.try_fold(cm, x) for x in arg.args] == ["Z", "+00:00"] and not shape_needed:
                     arg = arg.func.value
                 if not _text_of_value(fi, arg, pvalue):
                     continue
